@@ -28,6 +28,14 @@ INSERTS = ["\n", "\n\n", "00", "FF", ":", "##", "#>", " ", "=", "0x", "load", "R
            "#>load\n", "#>load a=1\n", "##SELECT: abc\n", "##CHECK_FWVER: x\n", "##SELECT_IF: x\n", "##REBOOT: 1\n", "##CRC: zz\n", "##Firmware:\n"]
 
 
+class Timeout(Exception):
+    pass
+
+
+def _alarm(signum, frame):
+    raise Timeout()
+
+
 def mutate(r, t, ascii_only=False):
     t = list(t)
     for _ in range(r.choice([1, 1, 2, 3, 8])):
@@ -69,6 +77,20 @@ def mutate(r, t, ascii_only=False):
     return "".join(t)
 
 
+def guarded(ctx, name, inp, f):
+    """run an implementation call under a 5 s alarm; a hang is a C14 violation"""
+    old = signal.signal(signal.SIGALRM, _alarm)
+    signal.alarm(5)
+    try:
+        return f()
+    except Timeout:
+        ctx.fail("hang", {"entry": name, "input": inp[:4000]}, "no result within 5 s")
+        return None
+    finally:
+        signal.alarm(0)
+        signal.signal(signal.SIGALRM, old)
+
+
 def correspondence(ctx):
     r = ctx.rng
     exprs, descr = [], []
@@ -83,7 +105,9 @@ def correspondence(ctx):
                 for _ in range(3):
                     t = mutate(r, w[1])
                     check = r.random() < 0.8
-                    rd = B.impl_read(t, check, key)
+                    rd = guarded(ctx, "bf3", t, lambda: B.impl_read(t, check, key))
+                    if rd is None:
+                        continue
                     exprs.append("res_eqb bf3_eqb (read_file toy_dec toy_mac %s %s %s) %s" % (
                         B.qstr(t), qbool(check), qbytes(key), qres(rd, B.qbf3_obj)))
                     descr.append(("bf3", t, check, key))
@@ -99,7 +123,9 @@ def correspondence(ctx):
                                    [("cust", bytes(16), None, None)], [("csc", bytes(8))],
                                    [("ecc", 0, toyecc.keygen(9), toyecc.pub_of(toyecc.keygen(9)))]])
                     toyecc.reset()
-                    rd = C.impl_bec2_read(t, ds, True, ToyPub, ToyPriv)
+                    rd = guarded(ctx, "bec2", t, lambda: C.impl_bec2_read(t, ds, True, ToyPub, ToyPriv))
+                    if rd is None:
+                        continue
                     nr = toyecc.STATE["nr"]
                     qd = qlist([C.q_encryptor(e) for e in ds], "encryptor")
                     exprs.append("res_eqb (prod_eqb bec2_eqb N.eqb) (t_read %s %s true 0) %s" % (
@@ -114,14 +140,6 @@ def correspondence(ctx):
     for i in bad[:10]:
         ctx.broken("correspondence: reader model differs from the implementation on a mutated %s text" % descr[i][0],
                    repr(descr[i])[:1500])
-
-
-class Timeout(Exception):
-    pass
-
-
-def _alarm(signum, frame):
-    raise Timeout()
 
 
 def global_writers():
